@@ -201,21 +201,15 @@ class TokNumber(Token):
     # so we don't have to jump through hoops to recreate it later.
     @property
     def value(self):
-        if b'x' in self._data:
-            if b'.' in self._data:
-                integer, frac = self._data.split(b'.')
-                return (
-                    float(int(integer, 16)) +
-                    float(int(frac, 16))/(16**len(frac)))
-            return float(int(self._data, 16))
-        if b'b' in self._data:
-            if b'.' in self._data:
-                integer, frac = self._data.split(b'.')
-                return (
-                    float(int(integer, 2)) +
-                    float(int(frac, 2))/(2**len(frac)))
-            return float(int(self._data, 2))
-        return float(self._data)
+        data = self._data.lower()
+        for prefix, base in ((b'0x', 16), (b'0b', 2)):
+            if data.startswith(prefix):
+                integer, _, frac = data[2:].partition(b'.')
+                value = float(int(integer, base)) if integer else 0.0
+                if frac:
+                    value += float(int(frac, base))/(base**len(frac))
+                return value
+        return float(data)
 
 
 class TokName(Token):
